@@ -627,6 +627,7 @@ func check(sc *scenario, res *result) (fs []finding, incon []string, st stats) {
 		add("concurrency:exceeded", "%d attempts in flight with MaxConcurrency %d", st.maxInflight, W)
 	}
 	// S3
+	usedFailure := map[int]bool{}
 	for k := 1; k < n; k++ {
 		p, a := &atts[k-1], &atts[k]
 		if !p.started || !a.started {
@@ -638,12 +639,15 @@ func check(sc *scenario, res *result) (fs []finding, incon []string, st stats) {
 		if a.sAt >= p.sAt+D {
 			continue
 		}
+		// each failure wakes the feeder once, at the instant it happens, and wake-ups are not stored: an early start needs
+		// its OWN failure (not used by an earlier early start) that happened since the previous start
 		excused, recent := false, false
 		for i := 0; i < k; i++ {
 			if f := &atts[i]; f.finished && !f.ok && f.fAt <= a.sAt {
 				excused = true
-				if f.fAt >= p.sAt {
+				if f.fAt >= p.sAt && !usedFailure[i] && !recent {
 					recent = true
+					usedFailure[i] = true
 				}
 			}
 		}
@@ -654,7 +658,11 @@ func check(sc *scenario, res *result) (fs []finding, incon []string, st stats) {
 		}
 		st.wakeStarts++
 		if !recent {
-			st.wakeOld++ // informational: excused only by a failure older than the previous start
+			// A failure wakes the feeder at the instant it happens (the wake-up is not stored), so a start that comes
+			// earlier than the delay must coincide with, or follow, a failure that happened SINCE the previous start.
+			st.wakeOld++
+			add("delay:early-start:no-failure-since-previous-start", "target %d started at %s, only %s after target %d (%s) with ConcurrencyDelay %s; the only earlier failures happened before target %d started",
+				k, fmtD(a.sAt), fmtD(a.sAt-p.sAt), k-1, fmtD(p.sAt), fmtD(D), k-1)
 		}
 	}
 	// S4, S9
